@@ -8,6 +8,7 @@
 #include "loadable_aut.hh"
 #include "explicit_tree_incl_up.hh"
 
+namespace VATA { extern void (*verifDownwardPostObserver)(const std::vector<size_t>&, const std::vector<size_t>&); }   // guarded hook in src/explicit_tree_incl_down.cc
 namespace VATA { extern void (*verifUpwardInclusionObserver)(size_t, const std::vector<size_t>&); extern void (*verifUpwardInclusionStepObserver)(int, size_t, const std::vector<size_t>&); }   // guarded hook in src/explicit_tree_incl_up.cc
 
 using namespace verif; using namespace VATA;
@@ -56,12 +57,23 @@ static InclParam mkParam(const Variant& v) {
   ip.SetUseRecursion(v.rec); ip.SetUseDownwardCacheImpl(v.opt); ip.SetUseSimulation(v.sim); return ip;
 }
 
+// ---- internal oracle for the non-recursive downward algorithm (guarded hook): for every tuple position, every state a choice function offers must be
+// simulated by a state of the antichain the algorithm keeps for that position (with the identity preorder: must be in it)
+static const AutBase::StateDiscontBinaryRelation* g_curSim = nullptr;   // null = identity
+std::string g_internalViolation;
+static void downPostObserver(const std::vector<size_t>& offered, const std::vector<size_t>& kept) {
+  if (!g_internalViolation.empty()) return;
+  for (auto r : offered) { bool ok = false; for (auto p : kept) if (g_curSim ? g_curSim->get(r, p) : r == p) { ok = true; break; }
+    if (!ok) { g_internalViolation = "state " + std::to_string(r) + " offered for a tuple position is not simulated by any state the algorithm keeps for it: offered {"; for (auto x : offered) g_internalViolation += std::to_string(x) + " "; g_internalViolation += "} kept {"; for (auto x : kept) g_internalViolation += std::to_string(x) + " "; g_internalViolation += "}"; return; } }
+  for (auto p : kept) if (std::find(offered.begin(), offered.end(), p) == offered.end()) { g_internalViolation = "the antichain kept for a tuple position holds state " + std::to_string(p) + " that no choice offered"; return; }
+}
 // returns 0/1 verdict, 2 = std::exception, 3 = other exception
 static int callInclRaw(const ExplicitTreeAut& a0, const ExplicitTreeAut& b0, const Variant& v, std::string* what);
 int callIncl(const ExplicitTreeAut& a0, const ExplicitTreeAut& b0, const Variant& v, std::string* what = nullptr) { int r = callInclRaw(a0, b0, v, what); verif::obs((uint64_t)r + 17); return r; }
 static int callInclRaw(const ExplicitTreeAut& a0, const ExplicitTreeAut& b0, const Variant& v, std::string* what) {
   try {
     InclParam ip = mkParam(v);
+    struct Guard { Guard(bool on) { if (on) VATA::verifDownwardPostObserver = &downPostObserver; } ~Guard() { VATA::verifDownwardPostObserver = nullptr; g_curSim = nullptr; } } guard(v.down && !v.rec);
     if (!v.sim) return ExplicitTreeAut::CheckInclusion(a0, b0, ip) ? 1 : 0;
     // recipe of cli/operations.hh and unit_tests/tree_aut_test.hh
     ExplicitTreeAut a(a0), b(b0);
@@ -70,7 +82,7 @@ static int callInclRaw(const ExplicitTreeAut& a0, const ExplicitTreeAut& b0, con
     SimParam sp; sp.SetNumStates(st);
     sp.SetRelation(v.down ? SimParam::e_sim_relation::TA_DOWNWARD : SimParam::e_sim_relation::TA_UPWARD);
     AutBase::StateDiscontBinaryRelation sim = u.ComputeSimulation(sp);
-    ip.SetSimulation(&sim);
+    ip.SetSimulation(&sim); g_curSim = &sim;
     return ExplicitTreeAut::CheckInclusion(a, b, ip) ? 1 : 0;
   } catch (std::exception& e) { if (what) *what = e.what(); return 2; } catch (...) { return 3; }
 }
@@ -122,8 +134,9 @@ static void runSrc(Env& env, const std::string& stage, PairSrc S, int n, bool nu
       antichainCheck(a, b, c, "A: " + D->str(A2) + " | B: " + D->str(B2), A.rules.size() + B.rules.size());
       for (auto& v : VARIANTS) {
         if (nv == 1 && v.sim) continue;   // sim variants always see prepared operands; renumbering is covered by nv==0 + C19
-        std::string what; int got = callIncl(a, b, v, &what);
+        std::string what; g_internalViolation.clear(); int got = callIncl(a, b, v, &what);
         c.count("calls");
+        if (!g_internalViolation.empty()) { c.viol(std::string("downward per-position antichain (internal)/") + v.name, "offered_state_not_covered_by_kept_antichain", {}, "A: " + D->str(A2) + " | B: " + D->str(B2) + " | variant=" + v.name + " (state numbers are those of the prepared operands)\n" + g_internalViolation + "\n--- A (timbuk)\n" + dom::timbuk(A2, D->sig, "A") + "--- B (timbuk)\n" + dom::timbuk(B2, D->sig, "B"), A.rules.size() + B.rules.size()); g_internalViolation.clear(); }
         if (got == (expect ? 1 : 0)) continue;
         std::string cls = got >= 2 ? "exception" : got == 1 ? "says_included_but_is_not" : "says_not_included_but_is";
         auto feats = pairFeatures(A, B); 
